@@ -1252,4 +1252,55 @@ func (c *Ctx) ruleItemKeepsExactDeadline(id string) {
 		}
 	}
 	ru.Check(bad == "" && n > 0, "deadline stored with each entry in wasp/expiration", "-", fmt.Sprintf("%d store(s) of an entry's time, none derived from the rounding", n), bad+map[bool]string{true: "", false: "no entry with a time field is stored"}[n > 0 || bad != ""])
+	// the look-up side: a routine that reads the entries' own time (to find the entry to delete) is given the exact
+	// deadline too, never the rounded bucket key
+	rounded := func(v ssa.Value) bool {
+		return depReaches(v, func(x ssa.Value) bool {
+			cv, ok := x.(*ssa.Call)
+			if !ok {
+				return false
+			}
+			cl := core.CallOf(cv)
+			return cl.Obj != nil && cl.Obj.Pkg() != nil && cl.Obj.Pkg().Path() == "time" && (cl.Obj.Name() == "Round" || cl.Obj.Name() == "Truncate")
+		})
+	}
+	readsEntryTime := func(g *ssa.Function) bool {
+		for _, b := range g.Blocks {
+			for _, in := range b.Instrs {
+				if fa, ok := in.(*ssa.FieldAddr); ok && isNamed(derefT(fa.Type()), "time", "Time") {
+					if en, ok := derefT(fa.X.Type()).(*types.Named); ok && elem[en] && fa.Referrers() != nil {
+						for _, r := range *fa.Referrers() {
+							if _, isStore := r.(*ssa.Store); !isStore {
+								return true
+							}
+						}
+					}
+				}
+			}
+		}
+		return false
+	}
+	m, bad2 := 0, ""
+	for _, f := range c.P.ModFuncs() {
+		if f.Package() == nil || f.Package().Pkg.Path() != c.P.Rel("wasp/expiration") {
+			continue
+		}
+		for _, cl := range core.CallsIn(f) {
+			g := cl.Static
+			if g == nil || g.Package() != f.Package() || len(g.Blocks) == 0 || !readsEntryTime(g) {
+				continue
+			}
+			for i, a := range cl.Common.Args {
+				if !isNamed(a.Type(), "time", "Time") || i >= len(g.Params) {
+					continue
+				}
+				// only parameters that are compared with the entries' time matter: those the routine's reads depend on
+				m++
+				if rounded(a) {
+					bad2 = "the routine that looks an entry up by its own deadline (" + c.fname(g) + ") is given the rounded bucket key at " + c.whereI(cl.Instr) + ": an entry whose deadline is not on a whole second is never found, its timer survives the acknowledgement and fires on the exchange that reuses the identifier"
+				}
+			}
+		}
+	}
+	ru.Check(bad2 == "", "deadline handed to the look-up routines of wasp/expiration", "-", fmt.Sprintf("%d time argument(s), none derived from the rounding", m), bad2)
 }
